@@ -533,7 +533,10 @@ def _apply(op, a, t):
         if op == "euler":
             return _euler(a[0], np.asarray(a[1], dtype=float), a[2])
         if op == "as_euler":
-            return _R.from_matrix(a[1]).as_euler(a[0], degrees=bool(a[2]))
+            import warnings
+            with warnings.catch_warnings():
+                warnings.simplefilter("ignore")  # gimbal lock at a sampled pole: scipy's convention (third angle 0) is the value
+                return _R.from_matrix(a[1]).as_euler(a[0], degrees=bool(a[2]))
         if op == "matmul":
             return np.asarray(a[0]) @ np.asarray(a[1])
         if op == "transpose":
